@@ -22,6 +22,11 @@ CHECKS = {
          "(1) every block of <= 2 (quick) / <= 3 (thorough) transactions over a 13/21-letter alphabet (transfers, token transfers, creations, calls, reverting calls, self-destruct, confidential in/out/transfer, bad nonces, underfunded) on 2 prior states, executed on 16 replicas: both storage modes x proposer / validator / after- and before-another-proposal / fast-sync / warm-identical cache / warm-twin cache / order-recorder; every listed result (state hash, receipt hash, gas, receipts, logs, bloom, outputs, key images, candidates, persisted stores, AllAccounts) must be identical and CheckBlock must accept what PreRunBlock produced; 36 cases re-run in another process. (2) every permutation of each recorded TryUpdate/TryDelete segment (<= 7 objects) replayed on fresh tries, every iteration and insertion order of 57 token maps through the ser map writer. (3) verifyTxsOnProcess with 2,3,4 workers (children under taskset), one invalid signature or black-listed sender at each position (thorough: pairs), cold/warm/mixed caches: ALL interleavings with <= 2 preemptions; accept/reject and stored senders compared with a sequential reference.",
          "No system contracts / WASM; confidential and upgrade transactions are outside the schedule exploration (need application state); unsynchronised accesses are not seen by the cooperative scheduler (no -race pass).",
          "5/C05"),
+ "C06": ("model_checking",
+         "explicit-state BFS over chains of blocks (worker subprocesses on the real application) with a per-account reference model and a generator-side ledger of hidden outputs; exhaustive tamper enumeration of every valid confidential transaction",
+         "BFS over chains of <= 2 blocks x <= 2 transactions (quick), <= 3 x <= 3 (thorough) over up to 199 operations (every transaction kind x amounts {0,1,unit,unit+1,balance,balance+1,overflow-sized} x fees {min, min+gasprice, non-multiple}), de-duplicated on (all balances, nonces, hidden ledger), both storage modes, ~10.9k / 127k blocks committed. After every block, per token: sum over ALL accounts + unspent hidden outputs changes only by explicit issues and self-destruct-to-self; fee debited == fee collector credit; failed receipts move only fees; A->U and U->A move exactly the declared amounts; every declared hidden output is found by its recipient's scan. Rejection side: 10 hostile constructions and 14-25 tampered variants per valid confidential transaction (txkit.Tampers + foreign range proof, OutPk count mismatch, overflow-sized fee/amounts, re-committed amounts, swapped pseudo outs/MLSAGs/ring signatures) must be rejected by Mempool.AddTx AND by a replica's CheckBlock.",
+         "Range proofs are an ideal functionality of the crypto stand-in (commitment equation, MLSAG, ring signatures, ECDH are real); no system WASM contracts; four recorded known findings (ring-of-one minting, CreateAccount drops tokens, credit after self-destruct in the same block, confidential payment to a contract created in the same block).",
+         "5/C06"),
  "C08": ("exploration",
          "bounded-exhaustive input enumeration: every single and pairwise field mutation x signature (r,s,v) boundary product x chain parameter x sender-cache state for every account-based transaction kind; exhaustive wallet x sub-address recognition matrix, key-set spend product and field-binding mutations for confidential transactions (real curve arithmetic)",
          "Account side: for Transaction (transfer/creation), TokenTransaction, UTXOTransaction with account input (coin/token), confidential inputs with account-paid fee, ContractUpgradeTx and MultiSignAccountTx: sign once with a fixed key, then every field mutation from {+1, zero, other, append byte, structural} singly and in pairs, every (r,s,v) from a 7x7x14 boundary set (0,1,N-1,N,N+1,valid,N-s; v incl. 27/28, 35+2c.., wrap values), verifying chain parameter in {c,c+1,0}, cache states {cold, warmed before mutation, warmed through the real mempool/StoreFrom twin}; oracle: recovered sender differs from the original or an error; high-s/out-of-range refused; transaction hash exact and injective over signatures. Confidential side: 3 wallets x 3 sub-addresses + outsider: outputs recognised/decoded by exactly the destination; 27 key sets x R-key x key-image x ring size {1,3} spends through CheckBasic: only the owner's key set is accepted; every single (thorough: pairwise) mutation of inputs, outputs, token, R-keys, fee, extra, account signature changes the ring-signature message and invalidates the authorisation. 257k cases quick / 5.4M thorough, exhaustive within the bounds.",
